@@ -19,4 +19,12 @@ rep = {}
 load(os.path.join(ENG, "overlay", "base.list"), rep)
 for prop in sys.argv[1:]:
     load(os.path.join(ENG, "props", prop, "overlay.list"), rep)
+extra = os.environ.get("VERIF_EXTRA_OVERLAY")
+if extra:
+    for ln in open(extra):
+        ln = ln.rstrip("\n")
+        if not ln.strip() or ln.startswith("#"):
+            continue
+        tgt, src = ln.split("\t")
+        rep[os.path.join(REPO, tgt.strip())] = src.strip()  # absolute source path (mutated copy)
 print(json.dumps({"Replace": rep}, indent=1))
